@@ -373,12 +373,23 @@ pub fn gen_grammar_idiom(rng: &mut Rng, cfg: &GenCfg, k: usize) -> Vec<Rule> {
             let kw = format!("kw{}", rules.len()); let ot = format!("ot{}", rules.len());
             rules.push(Rule { name: kw.clone(), ty: *rng.pick(&[RuleType::Normal, RuleType::Normal, RuleType::Atomic]), expr: Expr::Str(l1.into()) });
             rules.push(Rule { name: ot.clone(), ty: RuleType::Normal, expr: if rng.chance(1, 2) { Expr::Str(l2.into()) } else { Expr::Seq(bx(Expr::Str(l2.into())), bx(Expr::Str("c".into()))) } });
+            let kw2 = kw.clone();
             let r = Expr::Ident(kw);
             let p = match rng.below(5) { 0 | 1 => Expr::NegPred(bx(r)), 2 => Expr::PosPred(bx(r)), 3 => Expr::NegPred(bx(Expr::PosPred(bx(r)))), _ => Expr::NegPred(bx(Expr::NegPred(bx(r)))) };
             let guarded = Expr::Seq(bx(p), bx(if rng.chance(1, 2) { Expr::Ident("ANY".into()) } else { s(rng) }));
             if rng.chance(3, 4) { rules[0].ty = *rng.pick(&[RuleType::Normal, RuleType::Normal, RuleType::NonAtomic]); }
             // often with a second rule tried at the same position (two attempts inside the enclosing rule, one of them under a predicate)
-            if rng.chance(2, 3) { Expr::Choice(bx(guarded), bx(Expr::Ident(ot))) } else { guarded } }
+            let e_old = if rng.chance(2, 3) { Expr::Choice(bx(guarded), bx(Expr::Ident(ot))) } else { guarded };
+            // for two of the five literal pairs (no further random choice is made, so the grammars that follow are unchanged): the same
+            // rule matches under `!` twice at one position, through two silent helper rules that cannot be merged — the report
+            // lists it once
+            if (l1, l2) == ("a", "ab") || (l1, l2) == ("c", "a") {
+                let h1 = format!("ha{}", rules.len()); let h2 = format!("hb{}", rules.len());
+                let np = |n: &str| Expr::NegPred(bx(Expr::Ident(n.to_string())));
+                rules.push(Rule { name: h1.clone(), ty: RuleType::Silent, expr: Expr::Seq(bx(np(&kw2)), bx(Expr::Str("x".into()))) });
+                rules.push(Rule { name: h2.clone(), ty: RuleType::Silent, expr: Expr::Seq(bx(np(&kw2)), bx(Expr::Seq(bx(Expr::Str("x".into())), bx(Expr::Str("c".into()))))) });
+                Expr::Seq(bx(Expr::Str("b".into())), bx(Expr::Choice(bx(Expr::Ident(h1)), bx(Expr::Ident(h2)))))
+            } else { e_old } }
         5 if !later.is_empty() => { let a = Expr::Ident(rng.pick(&later[..]).clone()); let b = Expr::Ident(rng.pick(&later[..]).clone());
             Expr::Rep(bx(Expr::Choice(bx(a), bx(Expr::Choice(bx(b), bx(Expr::Ident("ANY".into()))))))) }
         // tags on an optional / repeated rule reference, after another pair (grammar-extras)
